@@ -54,7 +54,16 @@ def _admission_paths(ex_holder):
     ex_holder.append(ex)
     parent = find_method(ex.prog, 'ConnectionManager', 'handle_incoming_task')
     fn = find_closure(ex.prog, parent, [0])
-    p, args = coroutine_start(ex, fn)
+    # the configured limit may be read inside the task (pinned: Config::max_concurrent_connections on the Arc<Config> it was given) or be handed to
+    # the task as a value read by the spawner: an `Option<usize>` parameter of the task is that limit
+    uv = ex.upvar_types(fn)
+    lims = [i for i, t in uv.items() if re.fullmatch(r'(std::option::|core::option::)?Option<usize>', (t or '').strip())]
+    cfgs = [i for i, t in uv.items() if re.search(r'\bConfig\b', t or '')]
+    ups = None
+    if len(lims) == 1 and not cfgs:
+        ups = [None] * (max(uv) + 1)
+        ups[lims[0]] = Sym('limit', 'std::option::Option<usize>')
+    p, args = coroutine_start(ex, fn, ups)
     res = ex.run(fn, args, p)
     return ex, fn, res
 
@@ -259,6 +268,38 @@ def ob_known_insert(report):
                    ['KnownPeers::insert'], {'inline_depth': 4}, body)
 
 
+def ob_incoming_always_admission(report):
+    """every incoming connection attempt gets the admission task: nothing is refused before the peer is identified (a pre-TLS shortcut such as
+    "we are full anyway" refuses peers whose affinity lets them bypass the limit)"""
+    def body(ob):
+        def m_spawn(ex_, p, call, k):
+            p.events.append(Event('spawn', 'JoinSet::spawn', (call.args[1],)))
+            k(p, Sym(f'abort_handle{p.seq("ah")}', 'AbortHandle'))
+        ex = e2.executor('anemo', [(r'JoinSet::spawn$', m_spawn)] + CONNECTION_MODELS + lock_models(admission_cells()), max_depth=2)
+        fn = find_method(ex.prog, 'ConnectionManager', 'handle_incoming')
+        task = find_method(ex.prog, 'ConnectionManager', 'handle_incoming_task')
+        res = ex.run(fn, [Ptr(('H', 'cm', 'ConnectionManager'), (), True), Sym('incoming', 'endpoint::Connecting')])
+        n = 0
+        for r in res:
+            if r.tag == 'panic' and poison_panic(r):
+                continue
+            if r.tag != 'return':
+                return ob.done([ex], 'violated', f'handle_incoming can {r.tag}', path_summary(r), key='incoming-abnormal', paths=len(res))
+            sp = [e for e in r.events if e.kind == 'spawn']
+            ok_ = len(sp) == 1 and derives_from(sp[0].args[0], lambda v: isinstance(v, Sym) and v.name == 'incoming', ex=ex, p=r.path)
+            if not ok_:
+                o = ob.done([ex], 'violated', f'an incoming connection attempt does not always get the admission task ({len(sp)} tasks spawned on this path): it is dropped before the peer '
+                            'is identified, so a High/Allowed peer can be refused by a shortcut that only looks at counts', path_summary(r), key='incoming-not-admitted', paths=len(res))
+                o.replay = write_replay(PROP, 'incoming_admission', path_summary(r))
+                return o
+            n += 1
+        if not n:
+            return ob.done([ex], 'inconclusive', 'no path', paths=len(res))
+        ob.done([ex], 'held', '', {'paths': len(res)}, paths=len(res))
+    return guarded(report, 'incoming_always_gets_admission_task', 'ConnectionManager::handle_incoming spawns exactly one task holding the incoming connection attempt on every path (the admission '
+                   'decision of admission_equiv_spec is the only place where an inbound connection is refused)', ['ConnectionManager::handle_incoming'], {'inline_depth': 2}, body)
+
+
 def check(report, tier, only=None):
     report.trusted += ['z3 5.1 (python API)', 'rustc 1.97-nightly MIR dump of the scratch copy of /repo',
                        'contract models: Future::poll of `Connecting` = symbolic Poll<Result<Connection>>; HashMap::{get,len}; RwLock::read returns the guarded value; tracing disabled']
@@ -270,7 +311,11 @@ def check(report, tier, only=None):
                            'Config::max_concurrent_connections and Connection::peer_id are interface points (public accessors)']
     from props import C03
     # an acknowledged (admitted) connection is always registered: nothing after the admission decision may drop it
-    obs = [ob_admission, C03.ob_connecting_result, ob_dials_not_limited, ob_known_get, ob_known_insert, lambda rep: dial.ob_dial_task(rep, PROP)]
+    from props import handler as _handler
+
+    def add_peer_wiring(rep):
+        return _handler.ob_add_peer(rep, PROP)
+    obs = [ob_admission, ob_incoming_always_admission, C03.ob_connecting_result, add_peer_wiring, ob_dials_not_limited, ob_known_get, ob_known_insert, lambda rep: dial.ob_dial_task(rep, PROP)]
     for f in obs:
         if only and not any(s in getattr(f, '__name__', 'dial') for s in only):
             continue
